@@ -1046,4 +1046,35 @@ func checkSnapshotReadsOwnTxn(c *Ctx) {
 		}
 	}
 	r.Floor("C02.8", 25)
+	// the persisters (package fsm) read through the Snapshot only: no method of the live *state.Store
+	if persistCE := p.Func(fsmPkg, "persistCE"); persistCE != nil {
+		nP := 0
+		for f := range reachableStatic(p, []*ssa.Function{persistCE}, fsmPkg) {
+			nP++
+			bad := ""
+			for _, b := range f.Blocks {
+				for _, in := range b.Instrs {
+					ci, ok := in.(ssa.CallInstruction)
+					if !ok {
+						continue
+					}
+					g := ci.Common().StaticCallee()
+					if g == nil || g.Signature.Recv() == nil {
+						continue
+					}
+					if nt := core.NamedOf(g.Signature.Recv().Type()); nt != nil && nt.Obj().Name() == "Store" && strings.HasSuffix(core.FuncPkgPath(g), "/"+statePkg) {
+						bad = core.FuncName(g) + " at " + p.Pos(in.Pos())
+					}
+				}
+			}
+			if bad != "" {
+				r.Violate("C02.8", core.FuncName(f)+"/live-store", p.FuncPos(f), "a persister calls "+bad+" on the live state store instead of the point-in-time snapshot: that part of the stream is not from the cut")
+			}
+		}
+		if nP < 20 {
+			r.MissingInstance("C02.8", "<persisters>", fmt.Sprintf("only %d persister functions found", nP))
+		} else {
+			r.Hold("C02.8", "fsm/persisters", p.FuncPos(persistCE), fmt.Sprintf("%d persister functions: none calls a method of the live store", nP))
+		}
+	}
 }
